@@ -127,12 +127,17 @@ def tables_for(snap):
 # ------------------------------------------------------------------------------------------------ implementation runner
 
 def _site(e):
-    for fr in reversed(traceback.extract_tb(e.__traceback__)):
-        if "commonroad" in fr.filename and "site-packages" not in fr.filename:
-            cls = ""
-            return f"{os.path.basename(fr.filename)}:{fr.name}"
-    fr = traceback.extract_tb(e.__traceback__)[-1]
-    return f"{os.path.basename(fr.filename)}:{fr.name}"
+    """Innermost commonroad frame of the traceback as `Class.function` (stable across line-number changes)."""
+    tb = e.__traceback__
+    site = None
+    while tb is not None:
+        code = tb.tb_frame.f_code
+        if "commonroad" in code.co_filename and "site-packages" not in code.co_filename:
+            loc = tb.tb_frame.f_locals
+            owner = loc.get("cls") if isinstance(loc.get("cls"), type) else type(loc["self"]) if "self" in loc else None
+            site = (owner.__name__ + "." if owner is not None else os.path.basename(code.co_filename) + ":") + code.co_name
+        tb = tb.tb_next
+    return site or "unknown"
 
 
 def write_read(ctx, sc, pps, wkw, tag="c"):
@@ -504,10 +509,10 @@ def run(ctx):
     check_tables(ctx)
     for p in sorted(glob.glob(os.path.join(CORPUS_DIR, "C02", "*.json"))):
         run_case(ctx, json.load(open(p)))
-    n = ctx.n(260)
+    n = ctx.n(700)
     for i in range(n):
         run_case(ctx, {"spec": G.gen_spec(ctx.rng, size="small" if i % 3 == 0 else "normal")})
-    for _ in range(ctx.n(40)):
+    for _ in range(ctx.n(60)):
         c = gen_invalid(ctx.rng)
         if c is not None:
             run_case(ctx, c)
